@@ -176,20 +176,56 @@ stages:
   distribution: none
 `
 
+// a stage whose tick interval is as long as the stage itself (one evaluation), then another stage
+const longIntervalYAML = `scenario: s
+limits:
+  max-duration: 5s
+  concurrency: 64
+  max-iterations: 0
+  ignore-dropped: true
+stages:
+- duration: 400ms
+  mode: constant
+  rate: 5/400ms
+  jitter: 0
+  distribution: none
+- duration: 300ms
+  mode: constant
+  rate: 3/100ms
+  jitter: 0
+  distribution: none
+`
+
 // fileSuite: consecutive rate-driven stages of a config file. Each stage evaluates at
 // its start and then once per interval until 20 ms before its end; the next stage
 // starts at the nominal boundary, not earlier.
 func fileSuite() hlib.Suite {
 	return hlib.Suite{Name: "whole-run/config-file-stage-boundaries", Run: func(r *hlib.Rec) {
+		ms := time.Millisecond
+		for _, plan := range []struct {
+			yaml, input string
+			want        map[time.Duration]int
+		}{
+			{twoStagesYAML, "f1 run file: constant 2/100ms for 300ms, constant 3/100ms for 300ms, constant 1/50ms for 250ms; instant bodies, 64 workers",
+				map[time.Duration]int{0: 2, 100 * ms: 2, 200 * ms: 2, 300 * ms: 3, 400 * ms: 3, 500 * ms: 3, 600 * ms: 1, 650 * ms: 1, 700 * ms: 1, 750 * ms: 1, 800 * ms: 1}},
+			{longIntervalYAML, "f1 run file: constant 5/400ms for 400ms (one tick fits), constant 3/100ms for 300ms; instant bodies, 64 workers",
+				map[time.Duration]int{0: 5, 400 * ms: 3, 500 * ms: 3, 600 * ms: 3}},
+		} {
+			fileCase(r, plan.yaml, plan.input, plan.want)
+		}
+	}}
+}
+
+func fileCase(r *hlib.Rec, yaml, input string, want map[time.Duration]int) {
+	{
 		if !r.Mine() {
 			return
 		}
 		r.Eval()
-		input := "f1 run file: constant 2/100ms for 300ms, constant 3/100ms for 300ms, constant 1/50ms for 250ms; instant bodies, 64 workers"
 		r.SampleCase(input)
 		var t0 int64 = -1
 		begins := map[time.Duration]int{}
-		rs := &hlib.RunSpec{Mode: "file", FileYAML: twoStagesYAML, Quiet: true, CompletionTimeout: time.Second}
+		rs := &hlib.RunSpec{Mode: "file", FileYAML: yaml, Quiet: true, CompletionTimeout: time.Second}
 		rs.ScenarioFn = func(*f1testing.T) f1testing.RunFn {
 			t0 = vrt.Clock()
 			return func(*f1testing.T) { begins[time.Duration(vrt.Clock()-t0)]++ }
@@ -199,8 +235,6 @@ func fileSuite() hlib.Suite {
 			r.Fail("C09/run-broken", "file", fmt.Sprint(res.BuildErr, res.Out.Status, res.Out.Crash, res.Out.Detail), input)
 			return
 		}
-		ms := time.Millisecond
-		want := map[time.Duration]int{0: 2, 100 * ms: 2, 200 * ms: 2, 300 * ms: 3, 400 * ms: 3, 500 * ms: 3, 600 * ms: 1, 650 * ms: 1, 700 * ms: 1, 750 * ms: 1, 800 * ms: 1}
 		if fmt.Sprint(begins) != fmt.Sprint(want) {
 			kind := "tick-values"
 			for at := range begins {
@@ -210,9 +244,9 @@ func fileSuite() hlib.Suite {
 			}
 			r.Fail("C09/whole-run-cadence", "config-file/"+kind, fmt.Sprintf("iterations started at %v, the stages' ticks allow %v", begins, want), input)
 		}
-		r.Distinct("file")
+		r.Distinct(input)
 		r.Sample(map[string]any{"run": input, "started_at": fmt.Sprint(begins)})
-	}}
+	}
 }
 
 func suites(string) []hlib.Suite { return []hlib.Suite{suite(), fileSuite()} }
